@@ -223,6 +223,7 @@ CHECKS["C09"] = {
     "parts": [
         {"name": "asm-taint", "cmd": ["python3", "{verif}/tools/asmtaint.py"]},
         {"name": "asm-trace", "cmd": ["python3", "{verif}/tools/asmtrace.py"]},
+        {"name": "asm-dispatch", "pkg": "sm4", "run": "TestVX_C09_Dispatch", "public_files": SM4P + ["sm4/C09_pub_test.go"]},
     ],
 }
 
